@@ -37,10 +37,20 @@ Acts(s) ==
                     e \in {x \in 1..s.epoch : s.epoch - x <= Retention}, au \in Auths}
           ELSE {})
 
+PlainRotations(s) ==
+    \* a rotation WITHOUT bypass right after deployment / the previous rotation (the clock never advances here, so it is
+    \* always inside the minimum delay): skipping the delay is the operator's privilege, whoever signs
+    IF s.epoch < 3
+    THEN {[name |-> "RotateSigners", new |-> Order[s.epoch + 1], proof |-> Full(s.hashByEpoch[s.epoch]), bypass |-> FALSE, auth |-> au] :
+            au \in {{}, {s.operator}, {s.owner}}}
+    ELSE {}
+
 InitState == [Install(Blank("owner0", Op0, 0), "a") EXCEPT !.deployed = TRUE]
 Init == st = InitState
-Next == \E a \in Acts(st) : st' = Apply(st, a).post
+AllActs(s) == Acts(s) \cup PlainRotations(s)
+Next == \E a \in AllActs(st) : st' = Apply(st, a).post
 
+C06_NoBypassWithoutOperator == \A a \in PlainRotations(st) : LET r == Apply(st, a) IN ~r.ok /\ r.fails = {"delay"} /\ r.post = st
 Step(P(_, _, _)) == \A a \in Acts(st) : a.name # "HookOpenWindow" => P(st, a, Apply(st, a))
 Holder(s, a) == IF a.name = "TransferOwnership" THEN s.owner ELSE s.operator
 OnlyHolder(s, a, r) == r.ok => Holder(s, a) \in a.auth
@@ -60,7 +70,7 @@ Inst == [module |-> "Gateway", Sets |-> Sets, Keys |-> Keys, Msgs |-> Msgs, Cap 
          scale |-> [Q |-> "1", Qt |-> "1", t0 |-> 1000000]]
 ASSUME PrintT(<<"INST", ToJson(Inst)>>)
 Dump ==
-    LET acts == SetToSeq(Acts(st)) IN
+    LET acts == SetToSeq(AllActs(st)) IN
     PrintT(<<"NODE", ToJson([pre |-> st,
         edges |-> [i \in 1..Len(acts) |->
             LET r == Apply(st, acts[i]) IN
